@@ -275,6 +275,58 @@ async def run_async(ctx, res):
         if obs != want or rec["after"] != (raw if inside else cur):
             res.fail("spec", inp, want, dict(result=rec["result"], sent=rec["sent"], value_after=rec["after"]),
                      "displayed form of a raw value inside the bounds refused / outside the bounds accepted")
+    # ---- 4. re-reports through real frames: the controller reports a row, then reports it AGAIN with the same
+    # value and other raw bounds; the displayed bounds must be the displayed forms of the LAST reported raw bounds
+    # and the accept/refuse decision must follow them
+    from c06 import feed_triple   # (c06 imports this module; import at call time)
+    res4 = Result("C17")           # own failure list: must not be crowded out by the 200-failure cap of the other stages
+    rreqs, rrecs = [], []
+    st = {pd.PRODUCT_P: {}, pd.PRODUCT_I: {}}
+    for product, tname, kind, label, row, p0 in allrows:
+        if row["switch"] or kind == "control":
+            continue
+        if quick and kind in ("ecomax", "schedule") and rng.random() < 0.6:
+            continue
+        w = worlds[product]
+        n = 256 ** row["size"]
+        cw = pd.conv_words(kind, row)
+        v = rng.randrange(20, min(n, 250) - 20)
+        wide, narrow = (v, v - 10, v + 10), (v, v - 2, v + 2)
+        first, second = (wide, narrow) if rng.random() < 0.6 else (narrow, wide)
+        await feed_triple(w, tables, tname, kind, row, first, st[product])
+        await feed_triple(w, tables, tname, kind, row, second, st[product])
+        p = w.device(label).data[row["name"]]
+        dmin, dmax = p.min_value, p.max_value
+        raw = v + rng.choice([5, -5, 4, -4])     # inside the wide bounds, outside the narrow ones
+        p.update(ParameterValues(value=raw, min_value=0, max_value=n - 1))
+        disp = p.value
+        await feed_triple(w, tables, tname, kind, row, first, st[product])
+        await feed_triple(w, tables, tname, kind, row, second, st[product])
+        p = w.device(label).data[row["name"]]
+        r, frames = await pd.run_set(w, lambda: p.set(disp, retries=1, timeout=0.01))
+        sent = request_raw(kind, frames, row["size"])
+        if kind == "schedule" and isinstance(sent, tuple):
+            sent = sent[3]
+        rrecs.append(dict(table=tname, row=row["name"], conv=cw, reports=[list(first), list(second)], raw=raw,
+                          dmin=pd.canon_val(dmin), dmax=pd.canon_val(dmax), result=list(r), sent=sent, after=p.values.value))
+        rreqs += [f"display {cw} {second[1]}", f"display {cw} {second[2]}"]
+    rans = driver_batch(rreqs)
+    for i, rec in enumerate(rrecs):
+        mlo, mhi = rans[2 * i], rans[2 * i + 1]
+        v, lo, hi = rec["reports"][1]
+        inside = lo <= rec["raw"] <= hi
+        res.case(("rereport", rec["conv"], rec["table"], rec["row"], tuple(map(tuple, rec["reports"])), rec["raw"]), True)
+        res.count("rereport:" + ("narrowed" if rec["reports"][1][2] - rec["reports"][1][1] < 10 else "widened"))
+        inp = dict(table=rec["table"], row=rec["row"], conv=rec["conv"], reports=rec["reports"], raw=rec["raw"])
+        if (rec["dmin"], rec["dmax"]) != (mlo, mhi):
+            res4.fail("spec", inp, dict(min_value=mlo, max_value=mhi), dict(min_value=rec["dmin"], max_value=rec["dmax"]),
+                     "displayed minimum/maximum are not the displayed forms of the raw bounds the controller last reported")
+        obs = ("transmit:%d" % rec["sent"]) if isinstance(rec["sent"], int) else ("reject" if rec["result"] == ["exc", "ValueError"] else f"other:{rec['result']}")
+        want = f"transmit:{rec['raw']}" if inside else "reject"
+        if obs != want:
+            res4.fail("spec", inp, want, dict(result=rec["result"], sent=rec["sent"], value_after=rec["after"]),
+                     "after a re-report: displayed form of a raw value inside the last reported bounds refused / outside them accepted")
+    res.failures = res4.failures + res.failures
     for w in worlds.values():
         await w.shutdown()
     full_combos = all(j[1] for j in jobs if j[0] == "combo")
@@ -302,6 +354,47 @@ def replay(ctx):
     res = Result("C17")
     res.rule = "replay of one recorded (table, row, raw[, triple])"
     inp = f["input"]
+
+    async def go_rereport():
+        from c06 import feed_triple
+        tables = pd.load_tables()
+        for product in (pd.PRODUCT_P, pd.PRODUCT_I):
+            for tname, kind, label, row in rows_of(product, tables):
+                if (tname, row["name"]) != (inp["table"], inp["row"]):
+                    continue
+                w = await full_world(product, tables)
+                st = {}
+                first, second = [tuple(x) for x in inp["reports"]]
+                await feed_triple(w, tables, tname, kind, row, first, st)
+                await feed_triple(w, tables, tname, kind, row, second, st)
+                p = w.device(label).data[row["name"]]
+                cw = pd.conv_words(kind, row)
+                n = 256 ** row["size"]
+                dmin, dmax = pd.canon_val(p.min_value), pd.canon_val(p.max_value)
+                p.update(ParameterValues(value=inp["raw"], min_value=0, max_value=n - 1))
+                disp = p.value
+                await feed_triple(w, tables, tname, kind, row, first, st)
+                await feed_triple(w, tables, tname, kind, row, second, st)
+                p = w.device(label).data[row["name"]]
+                r, frames = await pd.run_set(w, lambda: p.set(disp, retries=1, timeout=0.01))
+                sent = request_raw(kind, frames, row["size"])
+                if kind == "schedule" and isinstance(sent, tuple):
+                    sent = sent[3]
+                mlo, mhi = driver_batch([f"display {cw} {second[1]}", f"display {cw} {second[2]}"])
+                res.case((tname, row["name"], inp["raw"]))
+                res.sample(dict(displayed_bounds=[dmin, dmax], model_bounds=[mlo, mhi], result=list(r), sent=sent))
+                if (dmin, dmax) != (mlo, mhi):
+                    res.fail("spec", inp, [mlo, mhi], [dmin, dmax], "displayed bounds are not those of the last report")
+                inside = second[1] <= inp["raw"] <= second[2]
+                ok = (sent == inp["raw"]) if inside else (r == ("exc", "ValueError"))
+                if not ok:
+                    res.fail("spec", inp, "transmit raw" if inside else "reject", dict(result=list(r), sent=sent), "accept/refuse after re-report")
+                await w.shutdown()
+                return
+
+    if "reports" in inp:
+        pd.run(go_rereport())
+        return res
 
     async def go():
         tables = pd.load_tables()
